@@ -164,6 +164,20 @@ def _cat_frozen(p):
     return ss.rv_discrete(values=(np.arange(len(p)), q))
 
 
+class _LogOf:
+    """quantiles of log X for X ~ frozen"""
+    def __init__(self, fr):
+        self.fr = fr
+
+    def ppf(self, u):
+        with np.errstate(all="ignore"):
+            return np.log(self.fr.ppf(u))
+
+
+# the beta density evaluated at exp(x) (constructor flag logScale): a reparametrised argument, not a density in x
+FAMILIES.append(Fam("beta(logscale)", st.tuples(shape, shape), lambda p: _LogOf(ss.beta(p[0], p[1])),
+                    lambda p, x: [lg(mpf(p[0]) + mpf(p[1])), -lg(mpf(p[0])), -lg(mpf(p[1])), (mpf(p[0]) - 1) * x, (mpf(p[1]) - 1) * mp.log(-mp.expm1(x))],
+                    lambda p: (-INF, 0.0), closed=(False, False), invalid=[(0.0, 1.0), (1.0, 0.0), (-1.0, 2.0)], normalised=False))
 FAMILIES.append(Fam("categorical", categorical_params(), _cat_frozen,
                     lambda p, x: [mp.log(mpf(p[int(x)]))], lambda p: (0.0, float(len(p) - 1)),
                     cdf=lambda p, x: mp.fsum(mpf(v) for v in p[:int(x) + 1]), discrete=True, invalid=[(0.5, -0.5, 1.0), (-1.0,)]))
